@@ -33,3 +33,13 @@ package strategy
 //@   trusted
 //@   modifies ghost_dirty, ghost_nput, ghost_ndel
 //@   ensures dirty_only_set: ghost_dirty == old(ghost_dirty) || ghost_dirty == 1
+
+//@ func IterUpdate
+//@   trusted
+//@   modifies ghost_dirty, ghost_nput, ghost_ndel
+//@   ensures dirty_only_set: ghost_dirty == old(ghost_dirty) || ghost_dirty == 1
+
+//@ func EmptyPut
+//@   trusted
+//@   modifies ghost_dirty, ghost_nput, ghost_ndel
+//@   ensures dirty_only_set: ghost_dirty == old(ghost_dirty) || ghost_dirty == 1
